@@ -21,4 +21,6 @@ EXTRAS = [
     lambda rep, fb, tier: __import__("vf.rules.methodrules", fromlist=["x"]).rule_index_domain(rep, fb),
     lambda rep, fb, tier: __import__("vf.rules.methodrules", fromlist=["x"]).rule_index_content(rep, fb),
     lambda rep, fb, tier: __import__("vf.rules.lints", fromlist=["x"]).rule_null_branch_deref(rep, fb),
+    lambda rep, fb, tier: __import__("vf.rules.lints", fromlist=["x"]).rule_rebuilt_simplified(rep, fb),
+    lambda rep, fb, tier: __import__("vf.rules.lints", fromlist=["x"]).rule_own_metadata(rep, fb),
 ]
